@@ -6,7 +6,9 @@ import (
 	"flag"
 	"fmt"
 	"os"
+	"path/filepath"
 	"sort"
+	"strings"
 
 	"verif/mlbcheck/chk"
 	"verif/mlbcheck/rules"
@@ -16,7 +18,8 @@ func usage() {
 	fmt.Fprintln(os.Stderr, `usage:
   mlbcheck check <Cxx> [--tier quick|thorough] [--overlay file.json] [--repo dir]
   mlbcheck selftest <Cxx>|all [--jobs n]
-  mlbcheck sweep [--repo dir]
+  mlbcheck sweep [--repo dir] [--overlay file.json|file.diff]
+  mlbcheck corpus [--jobs n] [--property Cxx] [dir...]   replay /verif/seeded and /verif/benign as overlays
   mlbcheck list
   mlbcheck explain <violation.json>`)
 	os.Exit(2)
@@ -52,8 +55,35 @@ func main() {
 	case "sweep":
 		fs := flag.NewFlagSet("sweep", flag.ExitOnError)
 		repo := fs.String("repo", "", "repository root (default /repo)")
+		overlay := fs.String("overlay", "", "JSON overlay or unified diff applied in memory")
 		fs.Parse(os.Args[2:])
-		os.Exit(rules.Sweep(*repo))
+		os.Exit(rules.Sweep(*repo, *overlay))
+	case "corpus":
+		fs := flag.NewFlagSet("corpus", flag.ExitOnError)
+		jobs := fs.Int("jobs", 6, "parallel replays")
+		only := fs.String("property", "", "only changes recorded for this property")
+		fs.Parse(os.Args[2:])
+		dirs := fs.Args()
+		if len(dirs) == 0 {
+			for _, sub := range []string{"seeded", "benign"} {
+				m, _ := filepath.Glob(filepath.Join(chk.VerifDir(), sub, "*", "patch.diff"))
+				for _, p := range m {
+					dirs = append(dirs, filepath.Dir(p))
+				}
+			}
+		}
+		sort.Strings(dirs)
+		res, rc := rules.Corpus(dirs, *jobs, *only)
+		n := map[string]int{}
+		for _, r := range res {
+			if r.Outcome == "skipped" {
+				continue
+			}
+			n[r.Kind+" "+r.Outcome]++
+			fmt.Printf("%-10s %-4s %-9s %-12s fired=%v %s\n", r.Name, r.Property, r.Kind, r.Outcome, r.Fired, strings.Join(r.Keys, " "))
+		}
+		fmt.Println("SUMMARY", n)
+		os.Exit(rc)
 	case "list":
 		ids := rules.IDs()
 		sort.Strings(ids)
